@@ -804,7 +804,82 @@ class EffectClient(Client):
                 if ch and ch[:2] == ('self', 'primitive') and len(ch) == 3 and isinstance(n.ctx, ast.Load):
                     if any(k in (NONE, TOP) for k in s.prim):
                         out.append('AttributeError')
+                    out.extend(peer_structure_raises(self.repo, ch[2]))
         return sorted(set(out))
+
+
+_PSR_CACHE: Dict[str, List[str]] = {}
+
+
+def peer_structure_raises(repo: Repo, attr: str, _depth: int = 0) -> List[str]:
+    """What reading ``<received PDU>.<attr>`` may raise when ``attr`` is a property of the PDU / item classes that walks the
+    structure the peer sent: ``x.user_data[k].name`` / ``x.variable_items[k].name`` reads ``name`` on whatever sub-item the peer put
+    at position k -- AttributeError unless every class that can stand there defines it (the sub-item classes of
+    ``pdu.SUB_ITEM_TYPES`` and the generic one; the four variable item classes) -- and IndexError unless the property tests the
+    list for emptiness first.  Properties it reads in turn are followed."""
+    if attr in _PSR_CACHE:
+        return _PSR_CACHE[attr]
+    _PSR_CACHE[attr] = []
+    out: List[str] = []
+    pdu_m = repo.modules.get('pdu')
+    udi_m = repo.modules.get('userdataitems')
+    if pdu_m is None or udi_m is None or _depth > 3:
+        return out
+    element_classes = {
+        'user_data': [c for c in udi_m.classes.values() if c.find_method('decode')],
+        'variable_items': [c for n_, c in pdu_m.classes.items() if n_ in ('ApplicationContextItem', 'PresentationContextItemRQ',
+                                                                          'PresentationContextItemAC', 'UserInformationItem')],
+    }
+
+    def defines(c, name) -> bool:
+        for k in c.mro():
+            if name in k.attrs or name in k.methods:
+                return True
+            init = k.methods.get('__init__')
+            if init is not None and any(isinstance(x, ast.Attribute) and isinstance(x.ctx, ast.Store) and isinstance(x.value, ast.Name)
+                                        and x.value.id == 'self' and x.attr == name for x in ast.walk(init.node)):
+                return True
+        return False
+    for m in (pdu_m, udi_m):
+        for c in m.classes.values():
+            f = c.methods.get(attr)
+            if f is None or f.kind != 'property':
+                continue
+            guarded = set()
+            for x in ast.walk(f.node):
+                if isinstance(x, ast.If):
+                    t = ast.unparse(x.test)
+                    for lst in element_classes:
+                        if ('self.%s' % lst) in t:
+                            guarded.add(lst)
+            for x in ast.walk(f.node):
+                if isinstance(x, ast.Attribute) and isinstance(x.ctx, ast.Load) and isinstance(x.value, ast.Subscript) \
+                        and isinstance(x.value.slice, ast.Constant) and isinstance(x.value.value, ast.Attribute) \
+                        and x.value.value.attr in element_classes:
+                    lst = x.value.value.attr
+                    lacking = [k.name for k in element_classes[lst] if not defines(k, x.attr)]
+                    if lacking:
+                        out.append('AttributeError')
+                    if lst not in guarded:
+                        out.append('IndexError')
+                elif isinstance(x, ast.Attribute) and isinstance(x.ctx, ast.Load) and isinstance(x.value, ast.Name) and x.value.id == f.params[0] \
+                        and x.attr != attr:
+                    out.extend(peer_structure_raises(repo, x.attr, _depth + 1))
+                elif isinstance(x, ast.Attribute) and isinstance(x.ctx, ast.Load) and isinstance(x.value, ast.Name) and x.attr == attr \
+                        and x.value.id != f.params[0]:
+                    pass
+            # a local bound to another property of self and then read (``ui = self.user_information; ui.maximum_length_received``)
+            for x in ast.walk(f.node):
+                if isinstance(x, ast.Attribute) and isinstance(x.ctx, ast.Load) and isinstance(x.value, ast.Name) and x.value.id != f.params[0] \
+                        and x.attr == attr and c.name != 'UserInformationItem':
+                    ui = pdu_m.classes.get('UserInformationItem')
+                    if ui is not None and ui.methods.get(attr) is not None and ui.methods[attr].kind == 'property' and _depth == 0:
+                        sub = _PSR_CACHE.pop(attr, None)
+                        # (the same name on the contained item: judged when that class's property is visited in this loop)
+                        _PSR_CACHE[attr] = sub or []
+    res = sorted(set(out))
+    _PSR_CACHE[attr] = res
+    return res
 
 
 # socket methods that fail with OSError on a connection the peer has reset or that cannot be established (close() does not:
